@@ -132,6 +132,9 @@ func (h anHost) GetBuiltinImport(moduleName string, valueName string, span herro
 	return h.TestingAnalyzerHost.GetBuiltinImport(moduleName, valueName, span, kind)
 }
 
+// the host of the checks knows two field annotations
+func (h anHost) GetKnownObjectTypeFieldAnnotations() []string { return []string{"setting", "readonly"} }
+
 func (h anHost) ResolveCodeModule(moduleName string) (string, bool, error) {
 	code, ok := h.st.req.Modules[moduleName]
 	if !ok && h.st.req.EchoModule != "" {
